@@ -41,6 +41,8 @@ def _program(which, flags):
     l2 = f.load(k) if flags["load_twice"] else l1
     x = f.add_op(programs.cust("x", [B, B], [B, B]), d1[0], l1)   # x[1] unused
     y = f.add_op(programs.cust("y", [B], [B]), l2)
+    if flags["order_from_input_first"]:
+        f.add_state_order(f.input_node, y)
     if flags["order"]:
         f.add_state_order(x, y)
     if flags["order_to_output"]:
@@ -54,7 +56,7 @@ def _program(which, flags):
               "polymorphic or monomorphic callee, unused outputs, an order edge between siblings, an order edge to the Output node), one task each",
        outside="other programs; the textual / binary form of the model (needs the native hugr._hugr, absent offline)")
 def exported_module_is_well_scoped(which):
-    flags = {"poly": False, "call_twice": False, "load_twice": False, "order": False, "order_to_output": False, "odd_name": False}
+    flags = {"poly": False, "call_twice": False, "load_twice": False, "order": False, "order_to_output": False, "odd_name": False, "order_from_input_first": False}
     if which == len(programs.MODULES):
         for k in flags:
             flags[k] = sym.concretize(sym.bool(k))
